@@ -13,6 +13,7 @@ import (
 	"os/exec"
 	"path/filepath"
 	"sort"
+	"strings"
 )
 
 type seededMeta struct {
@@ -24,8 +25,10 @@ type seededMeta struct {
 func selfTest(spec *PropSpec, ids []string, repo, verif string, known []KnownFinding) map[string]any {
 	dirs, _ := filepath.Glob(filepath.Join(verif, "seeded", "*", "meta.json"))
 	sort.Strings(dirs)
-	total, reported, skipped := 0, 0, 0
-	var missed, hit, skippedNames []string
+	type job struct {
+		name, patch string
+	}
+	var jobs []job
 	for _, mp := range dirs {
 		b, err := os.ReadFile(mp)
 		if err != nil {
@@ -41,46 +44,77 @@ func selfTest(spec *PropSpec, ids []string, repo, verif string, known []KnownFin
 				relevant = true
 			}
 		}
-		if !relevant {
-			continue
+		if relevant {
+			jobs = append(jobs, job{filepath.Base(filepath.Dir(mp)), filepath.Join(filepath.Dir(mp), "patch.diff")})
 		}
-		name := filepath.Base(filepath.Dir(mp))
-		total++
-		tmp, err := os.MkdirTemp("", "bpmnlint-seeded-")
-		if err != nil {
-			skipped++
-			continue
-		}
-		func() {
+	}
+	type outcome struct {
+		name, status, detail string // status: hit | missed | skipped
+	}
+	self, err := os.Executable()
+	if err != nil {
+		self = filepath.Join(verif, "bin", "bpmnlint")
+	}
+	results := make([]outcome, len(jobs))
+	sem := make(chan struct{}, 6)
+	done := make(chan int, len(jobs))
+	for i := range jobs {
+		go func(i int) {
+			sem <- struct{}{}
+			defer func() { <-sem; done <- i }()
+			j := jobs[i]
+			tmp, err := os.MkdirTemp("", "bpmnlint-seeded-")
+			if err != nil {
+				results[i] = outcome{j.name, "skipped", "no temp dir"}
+				return
+			}
 			defer os.RemoveAll(tmp)
 			cp := exec.Command("sh", "-c", fmt.Sprintf("cd %q && tar --exclude=.git -cf - . | (cd %q && tar -xf -)", repo, tmp))
 			if out, err := cp.CombinedOutput(); err != nil {
-				skipped++
-				skippedNames = append(skippedNames, name+": copy failed: "+string(out))
+				results[i] = outcome{j.name, "skipped", "copy failed: " + string(out)}
 				return
 			}
-			ap := exec.Command("git", "apply", filepath.Join(filepath.Dir(mp), "patch.diff"))
+			ap := exec.Command("git", "apply", j.patch)
 			ap.Dir = tmp
 			if _, err := ap.CombinedOutput(); err != nil {
-				skipped++
-				skippedNames = append(skippedNames, name+": patch no longer applies to the current tree")
+				results[i] = outcome{j.name, "skipped", "patch no longer applies to the current tree"}
 				return
 			}
-			p, err := Load(tmp, "", false)
-			if err != nil {
-				skipped++
-				skippedNames = append(skippedNames, name+": does not load: "+err.Error())
-				return
+			// each scratch copy is analysed in a process of its own (the rule engine keeps per-program state)
+			cmd := exec.Command(self, "-json", "-rules", strings.Join(ids, ","), "-repo", tmp, "-verif", verif)
+			out, _ := cmd.Output()
+			first := ""
+			for _, line := range strings.Split(string(out), "\n") {
+				if strings.HasPrefix(line, "{") {
+					var o Obligation
+					if json.Unmarshal([]byte(line), &o) == nil && first == "" {
+						first = o.Rule
+					}
+				}
 			}
-			res := runRules(p, ids)
-			classify(res, known)
-			if len(res.Violations) > 0 {
-				reported++
-				hit = append(hit, fmt.Sprintf("%s: %s", name, res.Violations[0].Rule))
+			if first != "" {
+				results[i] = outcome{j.name, "hit", first}
 			} else {
-				missed = append(missed, name)
+				results[i] = outcome{j.name, "missed", ""}
 			}
-		}()
+		}(i)
+	}
+	for range jobs {
+		<-done
+	}
+	total, reported, skipped := len(jobs), 0, 0
+	var missed, hit, skippedNames []string
+	for _, r := range results {
+		switch r.status {
+		case "hit":
+			reported++
+			hit = append(hit, r.name+": "+r.detail)
+		case "missed":
+			missed = append(missed, r.name)
+		default:
+			skipped++
+			skippedNames = append(skippedNames, r.name+": "+r.detail)
+		}
 	}
 	for _, m := range missed {
 		fmt.Fprintf(os.Stderr, "%s: checker weakness: seeded fault %s is not reported by this property's rules\n", spec.ID, m)
